@@ -508,3 +508,773 @@ Proof.
 Qed.
 
 End Sim.
+
+(** ** The loop: [regexp-advance!] over the whole string *)
+Section Loop.
+Variable N : nfa.
+Variable s : list char.
+Variable search : bool.
+Notation tb := (n_tb N).
+
+(** the successor a searcher in state [q] moves to on [ch] *)
+Definition fire (ch : char) (q : nat) : option nat :=
+  match nth_error tb q with
+  | Some st =>
+      match s_kind st with
+      | KChar ci cs => match s_n1 st with Some q' => if cs_mem ci cs ch then Some q' else None | None => None end
+      | _ => None
+      end
+  | None => None
+  end.
+
+Lemma step_all_cons i2 whole ch q m l new acc :
+  step_all N s i2 whole ch ((q, m) :: l) new acc =
+  match fire ch q with
+  | Some q' => match advance N s i2 whole (q', m) new acc with
+               | None => None
+               | Some (new', acc') => step_all N s i2 whole ch l new' acc'
+               end
+  | None => step_all N s i2 whole ch l new acc
+  end.
+Proof.
+  cbn [step_all]. unfold fire.
+  destruct (nth_error tb q) as [[[| ci cs | k |] sm sr [q'|] n2]|]; cbn [s_kind s_n1]; try reflexivity.
+  destruct (cs_mem ci cs ch); reflexivity.
+Qed.
+
+Lemma fire_spec ch q q' : fire ch q = Some q' <->
+  exists st ci cs, nth_error tb q = Some st /\ s_kind st = KChar ci cs /\ cs_mem ci cs ch = true /\ s_n1 st = Some q'.
+Proof.
+  unfold fire. split.
+  - destruct (nth_error tb q) as [st|]; [|discriminate].
+    destruct (s_kind st) as [|ci cs|k|] eqn:Ek; try discriminate.
+    destruct (s_n1 st) as [q1|] eqn:E1; [|discriminate].
+    destruct (cs_mem ci cs ch) eqn:Ec; [|discriminate]. intros [= <-]. exists st, ci, cs. auto.
+  - intros (st & ci & cs & -> & -> & Ec & ->). rewrite Ec. reflexivity.
+Qed.
+
+Definition start_ok (i0 : nat) : Prop := search = true \/ i0 = 0.
+Definition Reach (i q : nat) : Prop := exists i0, start_ok i0 /\ path tb s (n_start N, i0) (q, i).
+Definition counts (j : nat) : Prop := search = true \/ j = length s.
+Definition AccFound : Prop :=
+  exists i0 j qa, start_ok i0 /\ j <= length s /\ path tb s (n_start N, i0) (qa, j) /\ is_accept tb qa /\ counts j.
+
+Lemma cond_counts i : i <= length s -> cond s (negb search) i = true -> counts i.
+Proof.
+  unfold cond, counts. destruct search; cbn [negb orb]; [left; reflexivity|].
+  intros H C. right. apply Nat.leb_le in C. lia.
+Qed.
+
+Lemma counts_cond i : counts i -> cond s (negb search) i = true.
+Proof.
+  unfold cond, counts. intros [->| ->]; cbn [negb orb]; [reflexivity|].
+  rewrite Nat.leb_refl. apply orb_true_r.
+Qed.
+
+(** *** soundness *)
+Lemma advance_sound i sr new acc new' acc' :
+  i <= length s ->
+  advance N s i (negb search) sr new acc = Some (new', acc') ->
+  Reach i (fst sr) -> (forall q, In q (keys new) -> Reach i q) -> (acc <> None -> AccFound) ->
+  (forall q, In q (keys new') -> Reach i q) /\ (acc' <> None -> AccFound).
+Proof.
+  intros Hi E Hsr Hnew Hacc. unfold advance in E.
+  assert (Pcl : forall q q', Reach i q -> step tb s (q, i) (q', i) -> Reach i q').
+  { intros q q' (i0 & S0 & P0) St. exists i0. split; [exact S0|]. eapply path_snoc; eassumption. }
+  pose proof (adv_sound N s i (negb search) (Reach i) Pcl _ _ _ _ _ _ _ E) as X.
+  assert (X1 : forall q, In q (map fst [sr]) -> Reach i q) by (intros q [<-|[]]; exact Hsr).
+  destruct (X X1 Hnew) as [A B].
+  split; [exact A|]. intros HA. destruct (B HA) as [B1|(C & qa & (i0 & S0 & P0) & Ha)]; [auto|].
+  exists i0, i, qa. repeat split; auto. apply cond_counts; assumption.
+Qed.
+
+Lemma step_all_sound i ch : nth_error s i = Some ch ->
+  forall l new acc new' acc',
+  step_all N s (S i) (negb search) ch l new acc = Some (new', acc') ->
+  (forall q, In q (keys l) -> Reach i q) -> (forall q, In q (keys new) -> Reach (S i) q) ->
+  (acc <> None -> AccFound) ->
+  (forall q, In q (keys new') -> Reach (S i) q) /\ (acc' <> None -> AccFound).
+Proof.
+  intros Hch. assert (Hi : S i <= length s) by (apply Nat.le_succ_l; apply nth_error_Some; congruence).
+  induction l as [|[q m] l IH]; intros new acc new' acc' E Hl Hnew Hacc.
+  - cbn [step_all] in E. injection E as <- <-. split; assumption.
+  - rewrite step_all_cons in E.
+    assert (Hl' : forall x, In x (keys l) -> Reach i x) by (intros x Hx; apply Hl; right; exact Hx).
+    destruct (fire ch q) as [q'|] eqn:F; [|eapply IH; eassumption].
+    destruct (advance N s (S i) (negb search) (q', m) new acc) as [[new1 acc1]|] eqn:EA; [|discriminate].
+    apply fire_spec in F. destruct F as (st & ci & cs & Est & Ek & Ec & E1).
+    assert (R' : Reach (S i) q').
+    { destruct (Hl q (or_introl eq_refl)) as (i0 & S0 & P0). exists i0. split; [exact S0|].
+      eapply path_snoc; [exact P0|]. eapply step_chr; eassumption. }
+    destruct (advance_sound (S i) (q', m) new acc new1 acc1 Hi EA R' Hnew Hacc) as [A B].
+    eapply IH; eassumption.
+Qed.
+
+Lemma start_sound i s1 acc s1' acc' : i <= length s ->
+  (if search || (i =? 0) then advance N s i (negb search) (start_searcher N) s1 acc else Some (s1, acc))
+    = Some (s1', acc') ->
+  (forall q, In q (keys s1) -> Reach i q) -> (acc <> None -> AccFound) ->
+  (forall q, In q (keys s1') -> Reach i q) /\ (acc' <> None -> AccFound).
+Proof.
+  intros Hi E H1 H2. destruct (search || (i =? 0)) eqn:C.
+  - eapply advance_sound; try eassumption. unfold start_searcher; cbn [fst].
+    exists i. split; [|apply path_refl].
+    unfold start_ok. apply orb_true_iff in C. destruct C as [C|C]; [left; exact C | right; apply Nat.eqb_eq; exact C].
+  - injection E as <- <-. split; assumption.
+Qed.
+
+Lemma loop_sound : forall k i s1 acc s1' acc', k + i = length s ->
+  (forall q, In q (keys s1) -> Reach i q) -> (acc <> None -> AccFound) ->
+  loop search N s k i s1 acc = Some (s1', acc') -> (acc' <> None -> AccFound).
+Proof.
+  induction k as [|k IH]; intros i s1 acc s1' acc' Hk H1 H2 E; cbn [loop] in E.
+  - match type of E with match ?X with _ => _ end = _ => destruct X as [[s1a acca]|] eqn:ES; [|discriminate] end.
+    cbv beta iota in E. injection E as <- <-.
+    assert (Hi : i <= length s) by lia.
+    apply (start_sound i s1 acc s1a acca Hi ES H1 H2).
+  - match type of E with match ?X with _ => _ end = _ => destruct X as [[s1a acca]|] eqn:ES; [|discriminate] end.
+    cbv beta iota in E.
+    assert (Hi : i <= length s) by lia.
+    destruct (start_sound i s1 acc s1a acca Hi ES H1 H2) as [A B].
+    destruct ((search && early_exit s1a acca) || (negb search && is_nil s1a)); [injection E as <- <-; exact B|].
+    destruct (nth_error s i) as [ch|] eqn:Ech; [|injection E as <- <-; exact B].
+    destruct (step_all N s (S i) (negb search) ch s1a [] acca) as [[s2 acc2]|] eqn:ESA; [|discriminate].
+    assert (Hnil : forall q, In q (keys (@nil (nat * mvec))) -> Reach (S i) q) by (intros q []).
+    destruct (step_all_sound i ch Ech s1a [] acca s2 acc2 ESA A Hnil B) as [A' B'].
+    apply (IH (S i) s2 acc2 s1' acc'); [lia | exact A' | exact B' | exact E].
+Qed.
+
+(** *** completeness *)
+Definition EntryC (i : nat) (s1 : posse) : Prop :=
+  forall q st ci cs i0, nth_error tb q = Some st -> s_kind st = KChar ci cs -> start_ok i0 -> i0 < i ->
+    path tb s (n_start N, i0) (q, i) -> In q (keys s1).
+Definition AfterC (i : nat) (s1 : posse) : Prop :=
+  forall q st ci cs i0, nth_error tb q = Some st -> s_kind st = KChar ci cs -> start_ok i0 ->
+    path tb s (n_start N, i0) (q, i) -> In q (keys s1).
+Definition AccEntryC (i : nat) (acc : option mvec) : Prop :=
+  forall i0 j qa, start_ok i0 -> i0 < i -> j <= i -> counts j ->
+    path tb s (n_start N, i0) (qa, j) -> is_accept tb qa -> acc <> None.
+Definition AccAfterC (i : nat) (acc : option mvec) : Prop :=
+  forall i0 j qa, start_ok i0 -> j <= i -> counts j ->
+    path tb s (n_start N, i0) (qa, j) -> is_accept tb qa -> acc <> None.
+
+Lemma start_complete i s1 acc s1' acc' :
+  (if search || (i =? 0) then advance N s i (negb search) (start_searcher N) s1 acc else Some (s1, acc))
+    = Some (s1', acc') ->
+  EntryC i s1 -> AccEntryC i acc -> AfterC i s1' /\ AccAfterC i acc'.
+Proof.
+  intros E H1 H2. destruct (search || (i =? 0)) eqn:C.
+  - unfold advance, start_searcher in E. apply closure_complete in E. destruct E as (I1 & I2 & Cl). split.
+    + intros q st ci cs i0 Est Ek S0 P0. pose proof (path_mono _ _ _ _ P0) as M. cbn [snd] in M.
+      destruct (Nat.eq_dec i0 i) as [->|NE].
+      * destruct (Cl q P0) as [A _]. eapply A; eassumption.
+      * apply I1. eapply H1; try eassumption. lia.
+    + intros i0 j qa S0 Hj Cj P0 Ha. pose proof (path_mono _ _ _ _ P0) as M. cbn [snd] in M.
+      destruct (Nat.eq_dec i0 i) as [->|NE].
+      * assert (j = i) by lia. subst j. destruct (Cl qa P0) as [_ B].
+        apply B; [exact Ha | apply counts_cond; exact Cj].
+      * apply I2. eapply H2; try eassumption. lia.
+  - injection E as <- <-. apply orb_false_iff in C. destruct C as [C1 C2]. apply Nat.eqb_neq in C2.
+    assert (S0' : forall i0, start_ok i0 -> i0 < i). { intros i0 [A|A]; [congruence | lia]. }
+    split.
+    + intros q st ci cs i0 Est Ek S0 P0. eapply H1; eauto.
+    + intros i0 j qa S0 Hj Cj P0 Ha. eapply H2; eauto.
+Qed.
+
+Lemma step_all_complete i ch : nth_error s i = Some ch ->
+  forall l new acc new' acc',
+  step_all N s (S i) (negb search) ch l new acc = Some (new', acc') ->
+  incl (keys new) (keys new') /\ (acc <> None -> acc' <> None) /\
+  forall qc qn, In qc (keys l) -> fire ch qc = Some qn ->
+    forall q, path tb s (qn, S i) (q, S i) ->
+      (forall st ci cs, nth_error tb q = Some st -> s_kind st = KChar ci cs -> In q (keys new')) /\
+      (is_accept tb q -> cond s (negb search) (S i) = true -> acc' <> None).
+Proof.
+  intros Hch. induction l as [|[q0 m] l IH]; intros new acc new' acc' E.
+  - cbn [step_all] in E. injection E as <- <-. split; [apply incl_refl|]. split; [tauto|]. intros qc qn [].
+  - rewrite step_all_cons in E. destruct (fire ch q0) as [q'|] eqn:F.
+    + destruct (advance N s (S i) (negb search) (q', m) new acc) as [[new1 acc1]|] eqn:EA; [|discriminate].
+      unfold advance in EA. apply closure_complete in EA. destruct EA as (I1 & I2 & Cl).
+      destruct (IH _ _ _ _ E) as (J1 & J2 & J3).
+      split; [eapply incl_tran; eassumption|]. split; [tauto|].
+      intros qc qn [Hqc|Hqc] Fq q Hp.
+      * cbn [fst] in Hqc. subst qc. rewrite F in Fq. injection Fq as <-. destruct (Cl q Hp) as [A B]. split.
+        -- intros st ci cs Est Ek. apply J1. eapply A; eassumption.
+        -- intros Ha C. apply J2. apply B; assumption.
+      * eapply J3; eassumption.
+    + destruct (IH _ _ _ _ E) as (J1 & J2 & J3). split; [exact J1|]. split; [exact J2|].
+      intros qc qn [Hqc|Hqc] Fq q Hp; [cbn [fst] in Hqc; congruence | eapply J3; eassumption].
+Qed.
+
+Lemma step_complete i ch s1 acc s2 acc2 : nth_error s i = Some ch ->
+  step_all N s (S i) (negb search) ch s1 [] acc = Some (s2, acc2) ->
+  AfterC i s1 -> AccAfterC i acc -> EntryC (S i) s2 /\ AccEntryC (S i) acc2.
+Proof.
+  intros Hch E H1 H2. destruct (step_all_complete i ch Hch _ _ _ _ _ E) as (_ & J2 & J3).
+  assert (Key : forall i0 q, start_ok i0 -> i0 < S i -> path tb s (n_start N, i0) (q, S i) ->
+     exists qc qn, In qc (keys s1) /\ fire ch qc = Some qn /\ path tb s (qn, S i) (q, S i)).
+  { intros i0 q S0 Hi0 P0.
+    assert (L1 : snd (n_start N, i0) <= i) by (cbn [snd]; lia).
+    assert (L2 : i < snd (q, S i)) by (cbn [snd]; lia).
+    destruct (path_split N s _ _ P0 i L1 L2) as (qc & st & ci & cs & c & qn & P1 & Est & Ek & Ec & Em & En & P2).
+    exists qc, qn. split; [eapply H1; eassumption|]. split; [|exact P2].
+    apply fire_spec. exists st, ci, cs. rewrite Hch in Ec. injection Ec as <-. auto. }
+  split.
+  - intros q st ci cs i0 Est Ek S0 Hi0 P0. destruct (Key i0 q S0 Hi0 P0) as (qc & qn & Hin & F & P2).
+    destruct (J3 qc qn Hin F q P2) as [A _]. eapply A; eassumption.
+  - intros i0 j qa S0 Hi0 Hj Cj P0 Ha. destruct (Nat.eq_dec j (S i)) as [->|NE].
+    + destruct (Key i0 qa S0 Hi0 P0) as (qc & qn & Hin & F & P2).
+      destruct (J3 qc qn Hin F qa P2) as [_ B]. apply B; [exact Ha | apply counts_cond; exact Cj].
+    + apply J2. eapply H2; try eassumption. lia.
+Qed.
+
+Lemma loop_complete : forall k i s1 acc s1' acc', k + i = length s ->
+  EntryC i s1 -> AccEntryC i acc ->
+  loop search N s k i s1 acc = Some (s1', acc') -> AccAfterC (length s) acc'.
+Proof.
+  induction k as [|k IH]; intros i s1 acc s1' acc' Hk H1 H2 E; cbn [loop] in E.
+  - match type of E with match ?X with _ => _ end = _ => destruct X as [[s1a acca]|] eqn:ES; [|discriminate] end.
+    cbv beta iota in E. injection E as <- <-.
+    destruct (start_complete _ _ _ _ _ ES H1 H2) as [_ B]. assert (i = length s) by lia. subst i. exact B.
+  - match type of E with match ?X with _ => _ end = _ => destruct X as [[s1a acca]|] eqn:ES; [|discriminate] end.
+    cbv beta iota in E.
+    destruct (start_complete _ _ _ _ _ ES H1 H2) as [A B].
+    destruct ((search && early_exit s1a acca) || (negb search && is_nil s1a)) eqn:EX.
+    + injection E as <- <-. apply orb_true_iff in EX.
+      destruct EX as [EX|EX]; apply andb_true_iff in EX; destruct EX as [X1 X2].
+      * intros i0 j qa _ _ _ _ _. unfold early_exit in X2. destruct acca as [a|]; [discriminate | discriminate X2].
+      * destruct s1a as [|x r]; [|discriminate X2]. apply negb_true_iff in X1.
+        intros i0 j qa S0 Hj Cj P0 Ha. exfalso.
+        destruct S0 as [S0|S0]; [congruence|]. destruct Cj as [Cj|Cj]; [congruence|]. subst i0 j.
+        assert (L1 : snd (n_start N, 0) <= i) by (cbn [snd]; lia).
+        assert (L2 : i < snd (qa, length s)) by (cbn [snd]; lia).
+        destruct (path_split N s _ _ P0 i L1 L2) as (qc & st & ci & cs & c & qn & P1 & Est & Ek & _).
+        exact (A qc st ci cs 0 Est Ek (or_intror eq_refl) P1).
+    + destruct (nth_error s i) as [ch|] eqn:Ech.
+      2:{ exfalso. apply nth_error_None in Ech. lia. }
+      destruct (step_all N s (S i) (negb search) ch s1a [] acca) as [[s2 acc2]|] eqn:ESA; [|discriminate].
+      destruct (step_complete _ _ _ _ _ _ Ech ESA A B) as [A' B'].
+      apply (IH (S i) s2 acc2 s1' acc'); [lia | exact A' | exact B' | exact E].
+Qed.
+
+End Loop.
+
+(** the accept register after the whole loop is set exactly when a path that counts exists *)
+Theorem loop_acc_iff_path N s search s1 acc :
+  loop search N s (length s) 0 [] None = Some (s1, acc) ->
+  (acc <> None <-> AccFound N s search).
+Proof.
+  intros E. split.
+  - assert (H1 : forall q, In q (keys (@nil (nat * mvec))) -> Reach N s search 0 q) by (intros q []).
+    assert (H2 : @None mvec <> None -> AccFound N s search) by (intros H; exfalso; apply H; reflexivity).
+    exact (loop_sound N s search _ _ _ _ _ _ (Nat.add_0_r _) H1 H2 E).
+  - intros (i0 & j & qa & S0 & Hj & P0 & Ha & Cj).
+    assert (C : AccAfterC N s search (length s) acc).
+    { assert (H1 : EntryC N s search 0 []) by (intros q st ci cs i1 _ _ _ L; lia).
+      assert (H2 : AccEntryC N s search 0 None) by (intros i1 j1 qa1 _ L; lia).
+      exact (loop_complete N s search _ _ _ _ _ _ (Nat.add_0_r _) H1 H2 E). }
+    exact (C i0 j qa S0 Hj Cj P0 Ha).
+Qed.
+
+Theorem run_search_iff_path : forall N s, run_nfa true N s = true <-> finds_path N s.
+Proof.
+  intros N s. unfold run_nfa, run.
+  destruct (loop true N s (length s) 0 [] None) as [[s1 acc]|] eqn:E; [|exfalso; exact (loop_total _ _ _ _ _ _ _ E)].
+  pose proof (loop_acc_iff_path N s true s1 acc E) as [F1 F2]. cbn [orb]. split.
+  - intros H. assert (HA : acc <> None) by (destruct acc; [discriminate | discriminate H]).
+    destruct (F1 HA) as (i0 & j & qa & S0 & Hj & P0 & Ha & Cj).
+    exists i0, j, qa. split; [|split; assumption].
+    pose proof (path_mono _ _ _ _ P0) as M. cbn [snd] in M. lia.
+  - intros (i0 & j & qa & Hi0 & P0 & Ha).
+    assert (HA : acc <> None).
+    { apply F2. exists i0, j, qa. split; [left; reflexivity|]. split; [|split; [exact P0 | split; [exact Ha | left; reflexivity]]].
+      apply (path_bound _ _ _ _ P0). exact Hi0. }
+    destruct acc; [reflexivity | contradiction].
+Qed.
+
+(** whole-string matching, for ANY state graph: the accept register is set exactly when an accepting path exists *)
+Theorem loop_matches_iff_path N s s1 acc :
+  loop false N s (length s) 0 [] None = Some (s1, acc) ->
+  (acc <> None <-> accepts_path N s).
+Proof.
+  intros E. rewrite (loop_acc_iff_path N s false s1 acc E). split.
+  - intros (i0 & j & qa & S0 & Hj & P0 & Ha & Cj).
+    destruct S0 as [S0|S0]; [discriminate|]. destruct Cj as [Cj|Cj]; [discriminate|]. subst i0 j.
+    exists qa. split; assumption.
+  - intros (qa & P0 & Ha). exists 0, (length s), qa.
+    split; [right; reflexivity|]. split; [lia|]. split; [exact P0|]. split; [exact Ha | right; reflexivity].
+Qed.
+
+(** ... hence a reported whole-string match always has an accepting path (any graph) *)
+Theorem run_matches_sound N s : run_nfa false N s = true -> accepts_path N s.
+Proof.
+  unfold run_nfa, run.
+  destruct (loop false N s (length s) 0 [] None) as [[s1 acc]|] eqn:E; [|discriminate].
+  intros H. apply (loop_matches_iff_path N s s1 acc E). destruct acc; [discriminate | discriminate H].
+Qed.
+
+(* ------------------------------------------------------------------------------------------ *)
+(** * The final test of [run] for whole-string matching: the slot-1 discipline
+
+    [run false] only reports the accept when slot 1 of its vector (end of submatch 0) is the end of the
+    string.  In the graphs [compile_top] builds, slot 1 is written by exactly one state (n3), which is
+    the only predecessor of the accept state and whose only successor is the accept state.  The
+    checkable condition below captures that: "writers" of slot 1 are epsilon states all of whose
+    successors accept; nobody else reaches an accept state; accept states record nothing. *)
+
+Definition acceptb (tb : list state) (q : nat) : bool :=
+  match nth_error tb q with
+  | Some st => match s_kind st with KAccept => true | _ => false end
+  | None => false
+  end.
+Definition succs (st : state) : list nat := opt_list (s_n1 st) ++ opt_list (s_n2 st).
+Definition is_one (o : option nat) : bool := match o with Some 1 => true | _ => false end.
+Definition disc_st (tb : list state) (st : state) : bool :=
+  match s_kind st with
+  | KAccept => match s_match st with None => true | Some _ => false end
+  | KChar _ _ => negb (is_one (s_match st)) && forallb (fun q' => negb (acceptb tb q')) (succs st)
+  | _ => if is_one (s_match st) then forallb (acceptb tb) (succs st)
+         else forallb (fun q' => negb (acceptb tb q')) (succs st)
+  end.
+Definition slot1_discipline (N : nfa) : bool :=
+  forallb (disc_st (n_tb N)) (n_tb N) && negb (acceptb (n_tb N) (n_start N)) && (2 <=? n_nsave N).
+
+Lemma upd_length {A} (l : list A) k f : length (upd l k f) = length l.
+Proof. revert k; induction l as [|x r IH]; intros [|k]; cbn [upd length]; auto. Qed.
+
+Lemma nth_upd_neq {A} (l : list A) k j f d : k <> j -> nth j (upd l k f) d = nth j l d.
+Proof.
+  revert k j; induction l as [|x r IH]; intros [|k] [|j] H; cbn [upd nth]; try reflexivity; try congruence.
+  apply IH. lia.
+Qed.
+
+Lemma nth_repeat_none k n : nth k (repeat (@None nat) n) None = None.
+Proof. revert k; induction n as [|n IH]; intros [|k]; cbn [repeat nth]; auto. Qed.
+
+Lemma is_one_true o : is_one o = true -> o = Some 1.
+Proof. destruct o as [[|[|?]]|]; cbn; congruence. Qed.
+
+Lemma In_pmerge ng p q m q' m' : In (q', m') (pmerge ng p q m) -> In (q', m') p \/ m' = m.
+Proof.
+  induction p as [|[q0 m0] r IH]; cbn [pmerge]; [tauto|]. destruct (q0 =? q).
+  - intros [H|H]; [|left; right; exact H]. injection H as H1 H2. subst q'.
+    destruct (match_ge ng 0 m0 m); subst m'; [left; left; reflexivity | right; reflexivity].
+  - intros [H|H]; [left; left; exact H|]. destruct (IH H) as [A|A]; [left; right; exact A | right; exact A].
+Qed.
+
+Lemma In_padd ng p q m q' m' : In (q', m') (padd ng p q m) -> In (q', m') p \/ m' = m.
+Proof.
+  unfold padd. destruct (pfind p q); [apply In_pmerge|].
+  intros H. apply in_app_iff in H. destruct H as [H|[H|[]]]; [left; exact H | right; congruence].
+Qed.
+
+Section Disc.
+Variable N : nfa.
+Variable s : list char.
+Variable whole : bool.
+Hypothesis D : slot1_discipline N = true.
+Notation tb := (n_tb N).
+
+Definition V0 (m : mvec) : Prop := 2 <= length m /\ getm m 1 = None.
+Definition vec_ok (i q : nat) (m : mvec) : Prop := if acceptb tb q then getm m 1 = Some i else V0 m.
+Definition posse_v0 (p : posse) : Prop := forall q m, In (q, m) p -> V0 m.
+Definition acc_ok (acc : option mvec) : Prop :=
+  forall a, acc = Some a -> exists e, getm a 1 = Some e /\ (whole = true -> length s <= e).
+
+Lemma D_st q st : nth_error tb q = Some st -> disc_st tb st = true.
+Proof.
+  intros E. pose proof D as D0. unfold slot1_discipline in D0.
+  apply andb_true_iff in D0. destruct D0 as [D1 _]. apply andb_true_iff in D1. destruct D1 as [D1 _].
+  rewrite forallb_forall in D1. apply D1. eapply nth_error_In; exact E.
+Qed.
+
+Lemma um_V0 st m i : is_one (s_match st) = false -> V0 m -> V0 (update_match st m i).
+Proof.
+  intros H [L G]. unfold update_match. destruct (s_match st) as [idx|]; [|split; assumption].
+  match goal with |- V0 (if ?c then _ else _) => destruct c end; [split; assumption|].
+  split; [unfold setm; rewrite upd_length; exact L|]. unfold getm, setm. rewrite nth_upd_neq; [exact G|].
+  intros ->. cbn in H. discriminate H.
+Qed.
+
+Lemma um_one st m i : s_match st = Some 1 -> V0 m -> getm (update_match st m i) 1 = Some i.
+Proof.
+  intros H [L G]. unfold update_match. rewrite H. rewrite G. cbv iota. rewrite andb_false_r.
+  destruct m as [|a [|b r]]; cbn [length] in L; try lia. reflexivity.
+Qed.
+
+Lemma acceptb_true q st : nth_error tb q = Some st -> s_kind st = KAccept -> acceptb tb q = true.
+Proof. unfold acceptb; intros -> ->; reflexivity. Qed.
+
+Lemma acceptb_false q st : nth_error tb q = Some st -> s_kind st <> KAccept -> acceptb tb q = false.
+Proof. unfold acceptb; intros -> H. destruct (s_kind st); congruence. Qed.
+
+Lemma adv_disc p n i : forall fuel stk new seen acc new' acc',
+  adv fuel N p n i (length s <=? i) whole stk new seen acc = Some (new', acc') ->
+  (forall q m, In (q, m) stk -> vec_ok i q m) -> posse_v0 new -> acc_ok acc ->
+  posse_v0 new' /\ acc_ok acc'.
+Proof.
+  induction fuel as [|fuel IH]; intros stk new seen acc new' acc' E Hstk Hnew Hacc.
+  - destruct stk as [|[q m0] stk']; cbn [adv] in E; [|discriminate]. injection E as <- <-. split; assumption.
+  - destruct stk as [|[q m0] stk']; cbn [adv] in E; [injection E as <- <-; split; assumption|].
+    assert (Hq : vec_ok i q m0) by (apply Hstk; left; reflexivity).
+    assert (Hstk' : forall q' m', In (q', m') stk' -> vec_ok i q' m') by (intros q' m' H; apply Hstk; right; exact H).
+    destruct (nth_error tb q) as [st|] eqn:Eq; [|eapply IH; eassumption].
+    pose proof (D_st q st Eq) as Dst. unfold disc_st in Dst.
+    assert (Push : (s_kind st = KEps \/ exists k, s_kind st = KAnchor k) ->
+       forall q' m', In (q', m') (map (fun q' => (q', update_match st m0 i))
+                                      (opt_list (s_n1 st) ++ opt_list (s_n2 st)) ++ stk') -> vec_ok i q' m').
+    { intros Hk q' m' H. apply in_app_iff in H. destruct H as [H|H]; [|apply Hstk'; exact H].
+      apply in_map_iff in H. destruct H as (x & Hx & Hin). injection Hx as -> <-.
+      assert (NA : acceptb tb q = false).
+      { eapply acceptb_false; [exact Eq|]. destruct Hk as [Hk|[k Hk]]; rewrite Hk; discriminate. }
+      unfold vec_ok in Hq. rewrite NA in Hq.
+      assert (Dst' : (if is_one (s_match st) then forallb (acceptb tb) (succs st)
+                      else forallb (fun q' => negb (acceptb tb q')) (succs st)) = true).
+      { destruct Hk as [Hk|[k Hk]]; rewrite Hk in Dst; exact Dst. }
+      unfold vec_ok. destruct (is_one (s_match st)) eqn:E1; rewrite forallb_forall in Dst'; specialize (Dst' q' Hin).
+      + rewrite Dst'. apply um_one; [|exact Hq]. apply is_one_true. exact E1.
+      + apply negb_true_iff in Dst'. rewrite Dst'. apply um_V0; assumption. }
+    destruct (s_kind st) eqn:Ek; cbv iota in E; try rewrite Ek in Dst; cbv iota in Dst.
+    + assert (A : acceptb tb q = true) by (eapply acceptb_true; eassumption).
+      unfold vec_ok in Hq. rewrite A in Hq.
+      assert (Um : update_match st m0 i = m0).
+      { unfold update_match. destruct (s_match st); [discriminate Dst | reflexivity]. }
+      rewrite Um in E. eapply IH; [exact E | exact Hstk' | exact Hnew |].
+      destruct ((negb whole || (length s <=? i)) && _) eqn:C; [|exact Hacc].
+      intros a [= <-]. exists i. split; [exact Hq|]. intros Hw. rewrite Hw in C.
+      apply andb_true_iff in C. destruct C as [C _]. cbn [negb orb] in C. apply Nat.leb_le. exact C.
+    + assert (NA : acceptb tb q = false) by (eapply acceptb_false; [exact Eq | rewrite Ek; discriminate]).
+      unfold vec_ok in Hq. rewrite NA in Hq.
+      apply andb_true_iff in Dst. destruct Dst as [D1 _]. apply negb_true_iff in D1.
+      eapply IH; [exact E | exact Hstk' | | exact Hacc].
+      intros q' m' H. apply In_padd in H. destruct H as [H| ->]; [eapply Hnew; exact H | apply um_V0; assumption].
+    + destruct (memb q seen); [eapply IH; eassumption|].
+      destruct (anchor_ok k p n); [|eapply IH; eassumption].
+      eapply IH; [exact E | apply Push; right; exists k; reflexivity | exact Hnew | exact Hacc].
+    + destruct (memb q seen); [eapply IH; eassumption|].
+      eapply IH; [exact E | apply Push; left; reflexivity | exact Hnew | exact Hacc].
+Qed.
+
+Lemma step_all_disc i2 ch : forall l new acc new' acc',
+  step_all N s i2 whole ch l new acc = Some (new', acc') ->
+  posse_v0 l -> posse_v0 new -> acc_ok acc -> posse_v0 new' /\ acc_ok acc'.
+Proof.
+  induction l as [|[q m] l IH]; intros new acc new' acc' E Hl Hnew Hacc.
+  - cbn [step_all] in E. injection E as <- <-. split; assumption.
+  - rewrite step_all_cons in E.
+    assert (Hl' : posse_v0 l) by (intros q' m' H; eapply Hl; right; exact H).
+    destruct (fire N ch q) as [q'|] eqn:F; [|eapply IH; eassumption].
+    destruct (advance N s i2 whole (q', m) new acc) as [[new1 acc1]|] eqn:EA; [|discriminate].
+    unfold advance in EA. apply fire_spec in F. destruct F as (st & ci & cs & Est & Ek & Ec & E1).
+    pose proof (D_st q st Est) as Dst. unfold disc_st in Dst. rewrite Ek in Dst.
+    apply andb_true_iff in Dst. destruct Dst as [_ D2]. rewrite forallb_forall in D2.
+    assert (NA : acceptb tb q' = false).
+    { apply negb_true_iff. apply D2. unfold succs. rewrite E1. left. reflexivity. }
+    assert (Hs : forall q0 m0, In (q0, m0) [(q', m)] -> vec_ok i2 q0 m0).
+    { intros q0 m0 [H|[]]. injection H as <- <-. unfold vec_ok. rewrite NA. eapply Hl. left. reflexivity. }
+    destruct (adv_disc _ _ _ _ _ _ _ _ _ _ EA Hs Hnew Hacc) as [A B]. eapply IH; eassumption.
+Qed.
+
+Lemma start_disc (b : bool) i s1 acc s1a acca :
+  (if b then advance N s i whole (start_searcher N) s1 acc else Some (s1, acc)) = Some (s1a, acca) ->
+  posse_v0 s1 -> acc_ok acc -> posse_v0 s1a /\ acc_ok acca.
+Proof.
+  intros E H1 H2. destruct b; [|injection E as <- <-; split; assumption].
+  unfold advance, start_searcher in E.
+  assert (Hs : forall q0 m0, In (q0, m0) [(n_start N, repeat None (n_nsave N))] -> vec_ok i q0 m0).
+  { intros q0 m0 [H|[]]. injection H as <- <-. unfold vec_ok.
+    pose proof D as D0. unfold slot1_discipline in D0.
+    apply andb_true_iff in D0. destruct D0 as [D1 D3]. apply andb_true_iff in D1. destruct D1 as [_ D2].
+    apply negb_true_iff in D2. rewrite D2. apply Nat.leb_le in D3.
+    split; [rewrite repeat_length; exact D3|]. unfold getm. apply nth_repeat_none. }
+  exact (adv_disc _ _ _ _ _ _ _ _ _ _ E Hs H1 H2).
+Qed.
+
+Lemma loop_disc search : negb search = whole -> forall k i s1 acc s1' acc',
+  loop search N s k i s1 acc = Some (s1', acc') -> posse_v0 s1 -> acc_ok acc -> acc_ok acc'.
+Proof.
+  intros Hw. induction k as [|k IH]; intros i s1 acc s1' acc' E H1 H2; cbn [loop] in E; rewrite Hw in E.
+  - match type of E with match ?X with _ => _ end = _ => destruct X as [[s1a acca]|] eqn:ES; [|discriminate] end.
+    cbv beta iota in E. injection E as <- <-. apply (start_disc _ _ _ _ _ _ ES H1 H2).
+  - match type of E with match ?X with _ => _ end = _ => destruct X as [[s1a acca]|] eqn:ES; [|discriminate] end.
+    cbv beta iota in E.
+    destruct (start_disc _ _ _ _ _ _ ES H1 H2) as [A B].
+    destruct ((search && early_exit s1a acca) || (whole && is_nil s1a)); [injection E as <- <-; exact B|].
+    destruct (nth_error s i) as [ch|]; [|injection E as <- <-; exact B].
+    destruct (step_all N s (S i) whole ch s1a [] acca) as [[s2 acc2]|] eqn:ESA; [|discriminate].
+    assert (Hnil : posse_v0 []) by (intros q m []).
+    destruct (step_all_disc _ _ _ _ _ _ _ ESA A Hnil B) as [A' B'].
+    eapply IH; eassumption.
+Qed.
+
+End Disc.
+
+(** Whole-string matching for every graph that obeys the slot-1 discipline.  The discipline is proved for
+    every [compile_top x] at the end of this file ([compile_top_slot1_discipline]), which gives the
+    unconditional [run_matches_iff_path].  The direction [run_nfa false N s = true -> accepts_path N s]
+    holds for every graph ([run_matches_sound]). *)
+Theorem run_matches_iff_path_partial : forall N s, slot1_discipline N = true ->
+  (run_nfa false N s = true <-> accepts_path N s).
+Proof.
+  intros N s D. split; [apply run_matches_sound|]. intros HP. unfold run_nfa, run.
+  destruct (loop false N s (length s) 0 [] None) as [[s1 acc]|] eqn:E; [|exfalso; exact (loop_total _ _ _ _ _ _ _ E)].
+  pose proof (proj2 (loop_matches_iff_path N s s1 acc E) HP) as HA.
+  destruct acc as [m|]; [|contradiction].
+  assert (H1 : posse_v0 []) by (intros q m0 []).
+  assert (H2 : acc_ok s true None) by (intros a H; discriminate H).
+  pose proof (loop_disc N s true D false eq_refl _ _ _ _ _ _ E H1 H2) as AO.
+  destruct (AO m eq_refl) as (e & G & L).
+  cbv beta iota. cbn [orb]. rewrite G. specialize (L eq_refl). apply Nat.leb_le in L. rewrite L. reflexivity.
+Qed.
+
+(* ------------------------------------------------------------------------------------------ *)
+(** * Examples: the theorems applied to (: ( * ($ (or #\a "bc"))) eos) *)
+
+Definition ex_x : xsre :=
+  XSeq (XStar true (XSeq (XSub (XSeq (XAlt (XChr (CsChar 97%N)) (XAlt (XStr [98%N; 99%N]) XFail)) XEps)) XEps))
+       (XSeq (XAnc Eos) XEps).
+Definition ex_N : nfa := compile_top ex_x.
+
+Example ex_adv_fuel_suffices :
+  adv (adv_fuel ex_N) ex_N None (Some 97%N) 0 false true [start_searcher ex_N] [] [] None <> None.
+Proof. apply adv_fuel_suffices. Qed.
+
+Example ex_run_total : run false ex_N [97%N; 98%N; 99%N] <> None /\ run true ex_N [120%N; 97%N] <> None.
+Proof. split; apply run_total. Qed.
+
+Example ex_posse_keys_bounded :
+  exists s1 acc, loop true ex_N [97%N; 98%N; 99%N] 3 0 [] None = Some (s1, acc) /\
+                 NoDup (keys s1) /\ length s1 <= length (n_tb ex_N) /\ length s1 = 2.
+Proof.
+  destruct (loop true ex_N [97%N; 98%N; 99%N] 3 0 [] None) as [[s1 acc]|] eqn:E.
+  - exists s1, acc. split; [reflexivity|].
+    destruct (posse_keys_bounded true ex_N [97%N; 98%N; 99%N] s1 acc E) as (A & _ & B).
+    split; [exact A|]. split; [exact B|].
+    vm_compute in E. injection E as <- _. reflexivity.
+  - vm_compute in E. discriminate E.
+Qed.
+
+Example ex_run_search_iff_path : finds_path ex_N [120%N; 97%N; 98%N; 99%N] /\ finds_path ex_N [120%N].
+Proof. split; apply run_search_iff_path; vm_compute; reflexivity. Qed.
+
+Example ex_slot1_discipline : slot1_discipline ex_N = true.
+Proof. vm_compute. reflexivity. Qed.
+
+Example ex_run_matches_iff_path :
+  accepts_path ex_N [97%N; 98%N; 99%N; 97%N] /\ ~ accepts_path ex_N [97%N; 98%N].
+Proof.
+  split.
+  - apply (run_matches_iff_path_partial ex_N _ ex_slot1_discipline). vm_compute. reflexivity.
+  - intros H. apply (run_matches_iff_path_partial ex_N _ ex_slot1_discipline) in H. vm_compute in H. discriminate H.
+Qed.
+
+Example ex_loop_acc_iff_path :
+  ~ finds_path (compile_top (XSeq (XChr (CsChar 97%N)) (XSeq (XAnc Bos) XEps))) [97%N; 97%N].
+Proof. intros H. apply run_search_iff_path in H. vm_compute in H. discriminate H. Qed.
+
+(* ------------------------------------------------------------------------------------------ *)
+(** * Every graph [compile_top] builds obeys the slot-1 discipline
+
+    Invariant of the table during compilation ([Rtb]): states 0 and 1 are the two fixed states (accept, n3);
+    every other state is not an accept state, records no slot or a slot other than 1, and never points
+    to state 0.  [alloc] adds such a state at an id >= 2, [patch1]/[patch2] are only applied to ids >= 2
+    with a target other than 0, and every entry point [compile] returns is other than 0. *)
+Section CompileDisc.
+Variables a0 b0 : state.
+
+Definition Gst (st : state) : Prop :=
+  s_kind st <> KAccept /\ is_one (s_match st) = false /\ s_n1 st <> Some 0 /\ s_n2 st <> Some 0.
+
+Definition Rtb (tb : list state) : Prop :=
+  2 <= length tb /\ nth_error tb 0 = Some a0 /\ nth_error tb 1 = Some b0 /\
+  forall q st, 2 <= q -> nth_error tb q = Some st -> Gst st.
+
+Lemma alloc_R st e id e' : Rtb (e_tb e) -> Gst st -> alloc st e = (id, e') -> Rtb (e_tb e') /\ 2 <= id.
+Proof.
+  intros (L & H0 & H1 & HG) G A. unfold alloc in A. injection A as <- <-. cbn [e_tb]. split; [|exact L].
+  split; [rewrite app_length; lia|].
+  split; [rewrite nth_error_app1; [exact H0|lia]|]. split; [rewrite nth_error_app1; [exact H1|lia]|].
+  intros q st' Hq E. destruct (Nat.lt_ge_cases q (length (e_tb e))) as [Lt|Ge].
+  - rewrite nth_error_app1 in E by exact Lt. eapply HG; eassumption.
+  - rewrite nth_error_app2 in E by exact Ge.
+    destruct (q - length (e_tb e)) as [|d]; cbn [nth_error] in E; [injection E as <-; exact G | destruct d; discriminate E].
+Qed.
+
+Lemma nth_error_upd {A} (l : list A) k f q :
+  nth_error (upd l k f) q = if q =? k then option_map f (nth_error l q) else nth_error l q.
+Proof.
+  revert k q; induction l as [|x r IH]; intros [|k] [|q]; cbn [upd nth_error Nat.eqb option_map];
+    try reflexivity; try (destruct (_ =? _); reflexivity); apply IH.
+Qed.
+
+Lemma upd_R tb id f : Rtb tb -> 2 <= id -> (forall st, Gst st -> Gst (f st)) -> Rtb (upd tb id f).
+Proof.
+  intros (L & H0 & H1 & HG) Hid Hf. split; [rewrite upd_length; exact L|].
+  split; [rewrite nth_error_upd; destruct (0 =? id) eqn:E; [apply Nat.eqb_eq in E; lia | exact H0]|].
+  split; [rewrite nth_error_upd; destruct (1 =? id) eqn:E; [apply Nat.eqb_eq in E; lia | exact H1]|].
+  intros q st Hq E. rewrite nth_error_upd in E. destruct (q =? id); [|eapply HG; eassumption].
+  destruct (nth_error tb q) as [st0|] eqn:E0; [|discriminate E]. cbn [option_map] in E. injection E as <-.
+  apply Hf. eapply HG; eassumption.
+Qed.
+
+Lemma patch1_R id n e : Rtb (e_tb e) -> 2 <= id -> n <> Some 0 -> Rtb (e_tb (patch1 id n e)).
+Proof.
+  intros HR Hid Hn. unfold patch1. cbn [e_tb]. apply upd_R; [exact HR | exact Hid|].
+  intros st (A & B & C & D'). repeat split; cbn [s_kind s_match s_n1 s_n2]; assumption.
+Qed.
+
+Lemma patch2_R id n e : Rtb (e_tb e) -> 2 <= id -> n <> Some 0 -> Rtb (e_tb (patch2 id n e)).
+Proof.
+  intros HR Hid Hn. unfold patch2. cbn [e_tb]. apply upd_R; [exact HR | exact Hid|].
+  intros st (A & B & C & D'). repeat split; cbn [s_kind s_match s_n1 s_n2]; assumption.
+Qed.
+
+Lemma is_one_ge2 k : 2 <= k -> is_one (Some k) = false.
+Proof. destruct k as [|[|k]]; [lia | lia | reflexivity]. Qed.
+
+Definition cspec (f : nat -> cenv -> option nat * cenv) : Prop :=
+  forall next e r e', next <> 0 -> Rtb (e_tb e) -> f next e = (r, e') -> Rtb (e_tb e') /\ r <> Some 0.
+
+Ltac nz := first [assumption | discriminate | (let HH := fresh in intros HH; injection HH as HH; lia)].
+Ltac gst := unfold Gst, eps_state, fork_state, char_state, anchor_state; cbn [s_kind s_match s_n1 s_n2];
+            repeat split; try nz; try reflexivity; try (apply is_one_ge2; lia).
+Ltac al H :=
+  match type of H with
+  | context [alloc ?st ?e] =>
+      let id := fresh "id" in let e1 := fresh "e" in let A := fresh "A" in let RR := fresh "RR" in
+      destruct (alloc st e) as [id e1] eqn:A;
+      assert (RR : Rtb (e_tb e1) /\ 2 <= id) by (apply (alloc_R st e id e1); [assumption | gst | exact A]);
+      destruct RR as [? ?]; clear A; cbv beta iota zeta in H
+  end.
+Ltac callt H t pf :=
+  let r := fresh "r" in let e1 := fresh "e" in let C := fresh "C" in let RR := fresh "RR" in
+  destruct t as [r e1] eqn:C;
+  assert (RR : Rtb (e_tb e1) /\ r <> Some 0) by (refine (pf _ _ _ _ _ _ C); [first [assumption | lia] | first [assumption | apply patch2_R; [assumption | lia | nz]]]);
+  destruct RR as [? ?]; clear C; cbv beta iota zeta in H.
+Ltac rc H :=
+  match type of H with
+  | context [compile ?x ?ci ?nc ?nx ?e] =>
+      match goal with IH : forall ci nocap, cspec (compile x ci nocap) |- _ =>
+        callt H (compile x ci nc nx e) (IH ci nc) end
+  end.
+Ltac fin H :=
+  injection H as <- <-;
+  split; [ repeat first [assumption | apply patch1_R | apply patch2_R | lia | nz] | nz ].
+
+Lemma compile_chars_R l ci : cspec (compile_chars l ci).
+Proof.
+  induction l as [|c l IH]; intros next e r e' Hn HR H; cbn [compile_chars] in H.
+  - fin H.
+  - al H. al H. callt H (compile_chars l ci next e1) IH. fin H.
+Qed.
+
+Lemma compile_items_R cb : (forall sb, cspec (cb sb)) -> forall items, cspec (compile_items cb items).
+Proof.
+  intros Hcb. induction items as [|it rest IH]; intros next e r e' Hn HR H; cbn [compile_items] in H.
+  - fin H.
+  - al H. destruct it as [sb|sb|].
+    + callt H (cb sb id e0) (Hcb sb). callt H (compile_items cb rest next e1) IH. fin H.
+    + al H. callt H (cb sb id0 e1) (Hcb sb). al H. callt H (compile_items cb rest next e3) IH. fin H.
+    + al H. al H. callt H (cb true id1 e2) (Hcb true). al H.
+      match type of H with context [compile_items cb rest next ?ee] => callt H (compile_items cb rest next ee) IH end.
+      fin H.
+Qed.
+
+Lemma compile_R : forall x ci nocap, cspec (compile x ci nocap).
+Proof.
+  induction x; intros ci nocap next e r e' Hn HR H; cbn [compile] in H.
+  - (* XEps *) fin H.
+  - (* XFail *) fin H.
+  - (* XChr *) al H. fin H.
+  - (* XStr *) eapply compile_chars_R; eassumption.
+  - (* XSeq *) al H. rc H. rc H. fin H.
+  - (* XAlt *) destruct (is_cset (XAlt x1 x2)).
+    + al H. fin H.
+    + destruct x2; try solve [rc H; rc H; al H; fin H].
+      eapply IHx1; eassumption.
+  - (* XBar *) eapply IHx; eassumption.
+  - (* XStar *) al H. rc H. al H. fin H.
+  - (* XPlus *) al H. rc H. fin H.
+  - (* XOpt *) rc H. al H. fin H.
+  - (* XRep *)
+    refine (compile_items_R _ _ _ _ _ _ _ Hn HR H).
+    intros sb. exact (IHx ci (nocap || negb sb)).
+  - (* XSub *) destruct nocap; [eapply IHx; eassumption|].
+    al H. rc H. al H. injection H as <- <-. split; [|nz]. destruct (ngs x); cbn [e_tb]; assumption.
+  - (* XNamed *) destruct nocap; [eapply IHx; eassumption|].
+    al H. rc H. al H. injection H as <- <-. split; [|nz]. destruct (ngs x); cbn [e_tb]; assumption.
+  - (* XNoCap *) eapply IHx; eassumption.
+  - (* XWord *) al H. al H. rc H. al H. al H. fin H.
+  - (* XAnc *) al H. fin H.
+  - (* XNoCase *) eapply IHx; eassumption.
+  - (* XCase *) eapply IHx; eassumption.
+Qed.
+
+Lemma Rtb_acceptb tb q : s_kind a0 = KAccept -> s_kind b0 = KEps -> Rtb tb -> acceptb tb q = (q =? 0).
+Proof.
+  intros Ha Hb (L & H0 & H1 & HG). unfold acceptb. destruct q as [|[|q]].
+  - rewrite H0, Ha. reflexivity.
+  - rewrite H1, Hb. reflexivity.
+  - destruct (nth_error tb (S (S q))) as [st|] eqn:E; [|reflexivity].
+    assert (Hq : 2 <= S (S q)) by lia.
+    destruct (HG _ _ Hq E) as (A & _). destruct (s_kind st); try reflexivity. congruence.
+Qed.
+
+Lemma Rtb_discipline tb start nsave ngi :
+  s_kind a0 = KAccept -> s_match a0 = None ->
+  s_kind b0 = KEps -> s_match b0 = Some 1 -> s_n1 b0 = Some 0 -> s_n2 b0 = None ->
+  Rtb tb -> 2 <= start -> 2 <= nsave -> slot1_discipline (mkNfa tb start nsave ngi) = true.
+Proof.
+  intros Ha1 Ha2 Hb1 Hb2 Hb3 Hb4 HR Hs Hn. pose proof HR as (L & H0 & H1 & HG).
+  unfold slot1_discipline. cbn [n_tb n_start n_nsave].
+  assert (AB : forall q, acceptb tb q = (q =? 0)) by (intros q; apply Rtb_acceptb; assumption).
+  apply andb_true_iff. split; [apply andb_true_iff; split|].
+  - apply forallb_forall. intros st Hin. apply In_nth_error in Hin. destruct Hin as [q Eq].
+    unfold disc_st. destruct q as [|[|q]].
+    + rewrite H0 in Eq. injection Eq as <-. rewrite Ha1, Ha2. reflexivity.
+    + rewrite H1 in Eq. injection Eq as <-. rewrite Hb1, Hb2. cbn [is_one]. unfold succs. rewrite Hb3, Hb4.
+      cbn [opt_list app forallb]. rewrite AB. reflexivity.
+    + assert (Hq : 2 <= S (S q)) by lia. destruct (HG _ _ Hq Eq) as (A & B & C & D').
+      assert (F : forallb (fun q' => negb (acceptb tb q')) (succs st) = true).
+      { apply forallb_forall. intros q' Hq'. rewrite AB. unfold succs in Hq'. apply in_app_iff in Hq'.
+        destruct q' as [|q']; [|reflexivity]. exfalso.
+        destruct Hq' as [Hq'|Hq'].
+        - destruct (s_n1 st) as [x|]; cbn [opt_list In] in Hq'; [|contradiction]. destruct Hq' as [->|[]]. apply C. reflexivity.
+        - destruct (s_n2 st) as [x|]; cbn [opt_list In] in Hq'; [|contradiction]. destruct Hq' as [->|[]]. apply D'. reflexivity. }
+      rewrite B. cbn [negb andb]. destruct (s_kind st); try exact F. congruence.
+  - rewrite AB. destruct start as [|start]; [lia | reflexivity].
+  - apply Nat.leb_le. exact Hn.
+Qed.
+
+End CompileDisc.
+
+Theorem compile_top_slot1_discipline : forall x, slot1_discipline (compile_top x) = true.
+Proof.
+  intros x. unfold compile_top. cbn [alloc e_tb e_nsub e_ngi length app].
+  set (a0 := mkState KAccept None RNone None None).
+  set (b0 := mkState KEps (Some 1) (end_rule (ngs x)) (Some 0) None).
+  assert (HR : Rtb a0 b0 (e_tb (mkEnv [a0; b0] 0 []))).
+  { cbn [e_tb]. split; [cbn [length]; lia|]. split; [reflexivity|]. split; [reflexivity|].
+    intros q st Hq E. destruct q as [|[|q]]; [lia | lia |]. cbn [nth_error] in E. destruct q; discriminate E. }
+  destruct (compile x false false 1 (mkEnv [a0; b0] 0 [])) as [n2 e1] eqn:C.
+  destruct (compile_R a0 b0 x false false 1 _ _ _ (Nat.neq_succ_0 0) HR C) as [R1 Hn2].
+  destruct (alloc (mkState KEps (Some 0) RLeft n2 None) e1) as [n1 e2] eqn:A.
+  assert (G : Gst (mkState KEps (Some 0) RLeft n2 None)).
+  { unfold Gst. cbn [s_kind s_match s_n1 s_n2 is_one]. repeat split; try discriminate; try reflexivity. exact Hn2. }
+  destruct (alloc_R a0 b0 _ _ _ _ R1 G A) as [R2 Hn1].
+  unfold alloc in A. injection A as <- <-. cbn [e_tb] in R2.
+  apply (Rtb_discipline a0 b0); try reflexivity; try assumption. lia.
+Qed.
+
+(** whole-string matching: the simulation accepts exactly when an accepting path exists *)
+Theorem run_matches_iff_path : forall x s,
+  run_nfa false (compile_top x) s = true <-> accepts_path (compile_top x) s.
+Proof. intros x s. apply run_matches_iff_path_partial. apply compile_top_slot1_discipline. Qed.
+
+Example ex_run_matches_iff_path_full :
+  accepts_path (compile_top ex_x) [98%N; 99%N; 97%N] /\ ~ accepts_path (compile_top ex_x) [98%N; 97%N].
+Proof.
+  split.
+  - apply run_matches_iff_path. vm_compute. reflexivity.
+  - intros H. apply run_matches_iff_path in H. vm_compute in H. discriminate H.
+Qed.
